@@ -9,9 +9,6 @@
 (*                    Mar 3 or Mar 2), as Go's time.AddDate normalises                                 *)
 (*   not positive   : error iff notBefore is after notAfter                                            *)
 EXTENDS TLD
-SecOfDay == 86400
-\* seconds from a to b (small enough for TLC's integers up to ~68 years)
-Diff(a, b) == (b[1] - a[1]) * SecOfDay + (b[2] - a[2])
 PlusDays(t, n) == <<t[1] + n, t[2]>>
 \* civil date of a day number (inverse of TLD!DayNumber), by search over a plausible year range
 YearOf(n) == CHOOSE y \in 1900..2100 : DaysBeforeYear(y) <= n /\ n < DaysBeforeYear(y + 1)
@@ -20,12 +17,10 @@ Civil(n) == LET y == YearOf(n) m == MonthOf(n, y) IN <<y, m, n - DaysBeforeYear(
 \* t + k calendar months, overflow days rolling into the following month
 PlusMonths(t, k) == LET c == Civil(t[1])  mm == (c[2] - 1) + k  y == c[1] + (mm \div 12)  m == (mm % 12) + 1 IN
                     <<DaysBeforeYear(y) + DaysBeforeMonth(y, m) + c[3] - 1, t[2]>>
-InclusiveSeconds(nb, na) == Diff(nb, na) + 1
-Over398(nb, na) == InclusiveSeconds(nb, na) > 398 * SecOfDay
-Over397(nb, na) == InclusiveSeconds(nb, na) > 397 * SecOfDay
+Over398(nb, na) == OverDays(nb, na, 398)
+Over397(nb, na) == OverDays(nb, na, 397)
 Over825(nb, na) == Lt(PlusDays(nb, 825), na)
 OverMonths(nb, na, k) == Lt(PlusMonths(nb, k), na)
-NotPositive(nb, na) == Lt(na, nb)
 \* the verdict a lint gives when it runs (error / warn level per lint); 0 = the rule does not speak
 RuleOf(name) == CASE name = "e_tls_server_cert_valid_time_longer_than_398_days" -> "398"
                   [] name = "w_tls_server_cert_valid_time_longer_than_397_days" -> "397"
